@@ -566,19 +566,62 @@ theorem createPayload_owner {enc : JVal → String} {f view ref p : JVal} {cov :
         refine ⟨fun hf => (by cases hf), fun hT => ?_⟩
         rw [hp, hasUid_stripL, hT v rfl]
 
-/-- owner references after the server has merge-patched `target` with a patch payload -/
+theorem mem_keys_erase {k k' : String} : ∀ l : Fields, k' ∈ JVal.keys (JVal.erase k l) → k' ∈ JVal.keys l
+  | [], h => by simp [JVal.erase, JVal.keys] at h
+  | (k'', v'') :: rest, h => by
+    by_cases hk : k'' = k
+    · simp only [JVal.erase, hk, if_true] at h
+      simp only [JVal.keys, List.map_cons, List.mem_cons] at h ⊢
+      exact Or.inr h
+    · simp only [JVal.erase, hk, if_false, JVal.keys, List.map_cons, List.mem_cons] at h ⊢
+      rcases h with h | h
+      · exact Or.inl h
+      · exact Or.inr (mem_keys_erase rest h)
+
+theorem nodup_keys_erase (k : String) : ∀ l : Fields, (JVal.keys l).Nodup → (JVal.keys (JVal.erase k l)).Nodup
+  | [], _ => by simp [JVal.erase, JVal.keys]
+  | (k', v') :: rest, hn => by
+    have hn' : k' ∉ JVal.keys rest ∧ (JVal.keys rest).Nodup := by simpa [JVal.keys] using hn
+    by_cases hk : k' = k
+    · simp only [JVal.erase, hk, if_true]; exact hn'.2
+    · have ih := nodup_keys_erase k rest hn'.2
+      simp only [JVal.keys] at ih
+      simp only [JVal.erase, hk, if_false, JVal.keys, List.map_cons, List.nodup_cons]
+      exact ⟨fun hm => hn'.1 (mem_keys_erase rest hm), ih⟩
+
+theorem uniq2_dropMetaKey {k : String} {v v' : JVal} (h : dropMetaKey k v = some v') (hu : Uniq2 v) : Uniq2 v' := by
+  obtain ⟨kvs, m, rfl, hm, rfl⟩ := dropMetaKey_spec h
+  obtain ⟨h1, h2⟩ := hu kvs rfl
+  intro kvs' hk
+  simp only [JVal.obj.injEq] at hk
+  subst hk
+  refine ⟨nodup_keys_insert _ _ _ h1, ?_⟩
+  intro m' hm'
+  rw [lookup_insert_self] at hm'
+  simp only [Option.some.injEq, JVal.obj.injEq] at hm'
+  subst hm'
+  exact nodup_keys_erase _ _ (h2 m hm)
+
+theorem metaKey_dropMetaKey_self {k : String} {v v' : JVal} (h : dropMetaKey k v = some v') (hu : Uniq2 v) :
+    metaKey k v' = none := by
+  obtain ⟨kvs, m, rfl, hm, rfl⟩ := dropMetaKey_spec h
+  simp [metaKey, getKey, lookup_insert_self, lookup_erase_self k m ((hu kvs rfl).2 m hm)]
+
+/-- owner references after the server has merge-patched `target` with a patch payload: the live
+    list with ours appended when ours was missing, and otherwise — whatever the target says about
+    owner references — exactly the list the patched object already has -/
 theorem patch_merged_refs {enc : JVal → String} {expected live ref p : JVal} {so r : Bool} {s : String} (target : JVal)
     (hu : uidOf ref = .str s) (hU : Uniq2 expected) (h : patchPayload enc expected live ref so r = some p) :
     (so = true → r = false → ownerReffed live ref = false →
         ownerRefsOf (mergePatch target p) = stripL (ownerRefsOf live) ++ [strip ref]) ∧
-    ((so && !r) = false → TargetHasNoOwnerRefs expected →
-        ownerRefsOf (mergePatch target p) = ownerRefsOf target) := by
+    ((so && !r) = false → ownerRefsOf (mergePatch target p) = ownerRefsOf target) := by
   unfold patchPayload at h
-  cases hw : withOwner (so && !r) live ref expected with
+  cases hw : patchView expected live ref so r with
   | none => rw [hw] at h; simp at h
   | some w =>
     rw [hw] at h
     simp only [Option.bind_some] at h
+    unfold patchView at hw
     constructor
     · intro hso hr hreff
       subst hso; subst hr
@@ -593,13 +636,10 @@ theorem patch_merged_refs {enc : JVal → String} {expected live ref p : JVal} {
         simp only [Option.map_some, strip] at hl
         rw [(ownerRefsOf_mergePatch target hn hm hmn).1 _ hl, hrefs', stripL_append]
         simp [stripL]
-    · intro hso hT
-      simp only [withOwner, hso, Bool.false_eq_true, if_false, Option.some.injEq] at hw
-      subst hw
-      obtain ⟨pkvs, pm, rfl, hn, hm, hmn, hl⟩ := prepareForApi_patch_shape h hU
-      rw [metaKey_strip (by decide)] at hl
-      unfold TargetHasNoOwnerRefs at hT
-      rw [hT] at hl
+    · intro hso
+      simp only [hso, Bool.false_eq_true, if_false] at hw
+      obtain ⟨pkvs, pm, rfl, hn, hm, hmn, hl⟩ := prepareForApi_patch_shape h (uniq2_dropMetaKey hw hU)
+      rw [metaKey_strip (by decide), metaKey_dropMetaKey_self hw hU] at hl
       exact (ownerRefsOf_mergePatch target hn hm hmn).2 hl
 
 end Koreo.Rf
